@@ -111,24 +111,25 @@ def check(ctx: Ctx) -> None:
         elif not whole_source and not code_only:
             raise AnalysisError("C06.h: _find_non_builtin_globals uses a scanning idiom the checker does not know")
         if whole_source:
-            conds = []
+            from ..util import xtext
+            # which names are exempted: every membership test on the scanned node's id
+            exempt = []
             for x in repo.own_nodes(fg):
-                if isinstance(x, (ast.ListComp, ast.GeneratorExp, ast.SetComp)):
-                    for g in x.generators:
-                        for i in g.ifs:
-                            conds.extend(unparse(v) for v in (i.values if isinstance(i, ast.BoolOp) and isinstance(i.op, ast.And) else [i]))
-            exempt_ok = "isinstance(node, ast.Name)" in conds and "node.id not in builtins.__dict__" in conds
-            extra = [c for c in conds if c not in ("isinstance(node, ast.Name)", "node.id not in vars", "node.id not in builtins.__dict__")]
-            if not exempt_ok or extra:
-                ob.violation(fg, fg.node, f"the purity scan exempts more than local variable names and builtins ({extra or conds})", construct=f"exemptions {extra or conds}")
-            vs = [x for x in repo.own_nodes(fg) if isinstance(x, ast.Assign) and unparse(x.targets[0]) == "vars"]
-            if not vs or "co_varnames" not in unparse(vs[0].value):
-                ob.violation(fg, fg.node, "the exempted local names are not the code object's co_varnames")
+                if isinstance(x, ast.Compare) and len(x.ops) == 1 and isinstance(x.ops[0], (ast.In, ast.NotIn)) and xtext(repo, fg, x.left) == "node.id":
+                    exempt.append(xtext(repo, fg, x.comparators[0]))
+            name_test = any(isinstance(x, ast.Call) and unparse(x.func) == "isinstance" and len(x.args) == 2 and unparse(x.args[1]) == "ast.Name" for x in repo.own_nodes(fg))
+            bad = [e for e in exempt if "co_varnames" not in e and "builtins" not in e]
+            ob.site(fg, fg.node, "exempted names = local variable names of the code object and builtins only", exemptions=exempt)
+            if bad or not name_test or not any("builtins" in e for e in exempt):
+                ob.violation(fg, fg.node, f"the purity scan exempts more than local variable names and builtins ({bad or exempt})", construct=f"exemptions {bad or exempt}")
 
     with ctx.obligation("C06.b", "namespace") as ob:
-        locs = [x for x in repo.own_nodes(f_ex) if isinstance(x, (ast.Assign, ast.AnnAssign)) and isinstance(x.value, ast.Dict)]
-        ob.require(len(locs) == 1, "executetask: namespace dict literal not found")
+        locs = [x for x in repo.own_nodes(f_ex) if isinstance(x, (ast.Assign, ast.AnnAssign)) and (isinstance(x.value, ast.Dict)
+                or (isinstance(x.value, ast.Call) and unparse(x.value.func) == "dict" and not x.value.args))]
+        ob.require(len(locs) == 1, "executetask: namespace dict not found")
         d = locs[0].value
+        if isinstance(d, ast.Call):
+            d = ast.Dict(keys=[ast.Constant(value=k.arg) for k in d.keywords], values=[k.value for k in d.keywords])
         kv = {repo.fold_in(k, f_ex): unparse(v) for k, v in zip(d.keys, d.values)}
         ob.site(f_ex, locs[0], "exec namespace", keys=sorted(map(str, kv)))
         if kv.get("channel") != "channel":
@@ -137,13 +138,19 @@ def check(ctx: Ctx) -> None:
         if not nm or repo.fold_in(nm[0], f_ex) != "__channelexec__":
             ob.violation(f_ex, locs[0], "the exec namespace does not bind __name__ to '__channelexec__'")
         lv = unparse(locs[0].targets[0] if isinstance(locs[0], ast.Assign) else locs[0].target)
+        unp = [x for x in repo.own_nodes(f_ex) if isinstance(x, ast.Assign) and isinstance(x.targets[0], ast.Tuple) and len(x.targets[0].elts) == 2
+               and isinstance(x.targets[0].elts[1], ast.Tuple) and len(x.targets[0].elts[1].elts) == 4]
+        un_call = unparse(unp[0].targets[0].elts[1].elts[2]) if unp else "call_name"
         ex = [c for c in repo.calls_in(f_ex) if isinstance(c.func, ast.Name) and c.func.id == "exec"]
         ob.require(len(ex) == 1, "exec(...) not found")
-        if [unparse(a) for a in ex[0].args] != ["co", lv]:
+        cvar = [unparse(x.targets[0]) for x in repo.own_nodes(f_ex) if isinstance(x, ast.Assign) and isinstance(x.value, ast.Call) and unparse(x.value.func) == "compile"]
+        if len(ex[0].args) != 2 or unparse(ex[0].args[1]) != lv or (unparse(ex[0].args[0]) not in cvar and not _x(repo, f_ex, ex[0].args[0]).startswith("compile(")):
             ob.violation(f_ex, ex[0], "the compiled code is not executed in the fresh namespace (one dict as globals)")
-        fn = [x for x in repo.own_nodes(f_ex) if isinstance(x, ast.Assign) and unparse(x.value) == f"{lv}[call_name]"]
-        call = [c for c in repo.calls_in(f_ex) if fn and isinstance(c.func, ast.Name) and c.func.id == unparse(fn[0].targets[0])]
-        ok = len(fn) == 1 and len(call) == 1 and [unparse(a) for a in call[0].args] == ["channel"] and [(k.arg, unparse(k.value)) for k in call[0].keywords] == [(None, "kwargs")]
+        from ..util import xtext as _x
+        want_fn = _x(repo, f_ex, ast.parse(f"{lv}[{un_call}]", mode="eval").body)
+        call = [c for c in repo.calls_in(f_ex) if _x(repo, f_ex, c.func) == want_fn]
+        fn = call
+        ok = len(call) == 1 and [unparse(a) for a in call[0].args] == ["channel"] and [(k.arg, unparse(k.value)) for k in call[0].keywords] == [(None, "kwargs")]
         ob.site(f_ex, call[0] if call else f_ex.node, "the named function is called as f(channel, **kwargs)", ok=ok)
         if not ok:
             ob.violation(f_ex, f_ex.node, "the remote function is not looked up by call_name in the namespace and called as f(channel, **kwargs)")
@@ -160,7 +167,8 @@ def check(ctx: Ctx) -> None:
     with ctx.obligation("C06.c", "payload-roles") as ob:
         snd = [c for c in repo.calls_in(f_re) if callee_attr(c) == "_send"]
         pl = snd[0].args[2] if snd and len(snd[0].args) > 2 else None
-        ok = isinstance(pl, ast.Call) and callee_attr(pl) == "dumps_internal" and isinstance(pl.args[0], ast.Tuple) and [unparse(e) for e in pl.args[0].elts] == ["source", "file_name", "call_name", "kwargs"]
+        ok = isinstance(pl, ast.Call) and callee_attr(pl) == "dumps_internal" and isinstance(pl.args[0], ast.Tuple) and len(pl.args[0].elts) == 4 \
+            and unparse(pl.args[0].elts[3]) == (f_re.node.args.kwarg.arg if f_re.node.args.kwarg else "kwargs")
         ob.site(f_re, snd[0] if snd else f_re.node, "payload = (source, file_name, call_name, kwargs)", ok=ok)
         if not ok:
             ob.violation(f_re, snd[0] if snd else f_re.node, "remote_exec does not send the 4-tuple (source, file_name, call_name, kwargs)")
@@ -170,20 +178,30 @@ def check(ctx: Ctx) -> None:
         if len(rets) != 1 or unparse(rets[0].value) != "channel":
             ob.violation(f_re, f_re.node, "remote_exec does not return the channel it connected")
         un = [x for x in repo.own_nodes(f_ex) if isinstance(x, ast.Assign) and isinstance(x.targets[0], ast.Tuple) and unparse(x.value) == f_ex.params()[1]]
-        ok = len(un) == 1 and unparse(un[0].targets[0]) == "(channel, (source, file_name, call_name, kwargs))"
+        ok = len(un) == 1 and isinstance(un[0].targets[0].elts[1], ast.Tuple) and len(un[0].targets[0].elts[1].elts) == 4 and len(un[0].targets[0].elts) == 2
         ob.site(f_ex, un[0] if un else f_ex.node, "executetask unpacks (channel, (source, file_name, call_name, kwargs))", ok=ok)
         if not ok:
             ob.violation(f_ex, f_ex.node, "executetask does not unpack the task as (channel, (source, file_name, call_name, kwargs))")
         comp = [c for c in repo.calls_in(f_ex) if isinstance(c.func, ast.Name) and c.func.id == "compile"]
-        ok = len(comp) == 1 and unparse(comp[0].args[0]).startswith("source") and unparse(comp[0].args[1]).startswith("file_name or") and repo.fold_in(comp[0].args[2], f_ex) == "exec"
+        from ..util import xtext as _xt
+        un_names = [unparse(e) for e in un[0].targets[0].elts[1].elts] if un and isinstance(un[0].targets[0].elts[1], ast.Tuple) else ["source", "file_name", "call_name", "kwargs"]
+        ok = len(comp) == 1 and _xt(repo, f_ex, comp[0].args[0]).startswith(un_names[0]) and (_xt(repo, f_ex, comp[0].args[1]).startswith(f"{un_names[1]} or") or _xt(repo, f_ex, comp[0].args[1]).startswith(f"{un_names[1]} if {un_names[1]} else")) and repo.fold_in(comp[0].args[2], f_ex) == "exec"
         ob.site(f_ex, comp[0] if comp else f_ex.node, "compile(source, file_name or ..., 'exec')", ok=ok)
         if not ok:
             ob.violation(f_ex, f_ex.node, "the source is not compiled under the transmitted file name (tracebacks would not name the original file)")
         # sender roles
+        from ..util import xtext
         asg = {}
         for x in repo.own_nodes(f_re):
             if isinstance(x, ast.Assign) and isinstance(x.targets[0], ast.Name):
-                asg.setdefault(x.targets[0].id, []).append(unparse(x.value))
+                asg.setdefault(x.targets[0].id, []).append(xtext(repo, f_re, x.value))
+            if isinstance(x, ast.Assign) and isinstance(x.targets[0], ast.Tuple) and isinstance(x.value, ast.Tuple) and len(x.value.elts) == len(x.targets[0].elts):
+                for t, v in zip(x.targets[0].elts, x.value.elts):
+                    if isinstance(t, ast.Name):
+                        asg.setdefault(t.id, []).append(xtext(repo, f_re, v))
+        # names of the payload tuple elements
+        pl_names = [unparse(e) for e in pl.args[0].elts] if isinstance(pl, ast.Call) and pl.args and isinstance(pl.args[0], ast.Tuple) and len(pl.args[0].elts) == 4 else ["source", "file_name", "call_name", "kwargs"]
+        asg = {"source": asg.get(pl_names[0], []), "file_name": asg.get(pl_names[1], []), "call_name": asg.get(pl_names[2], [])}
         ob.site(f_re, f_re.node, "sender roles", call_name=asg.get("call_name"), file_name=asg.get("file_name"))
         if "source.__name__" not in asg.get("call_name", []):
             ob.violation(f_re, f_re.node, "call_name is not the function's own name")
@@ -239,56 +257,57 @@ def check(ctx: Ctx) -> None:
                 ob.violation(f_ex, f_ex.node, f"executetask can finish ({kind}) without closing the channel", construct=f"exit:{kind}", path=cfg.describe_path(p))
 
     with ctx.obligation("C06.f", "stdio-typestate") as ob:
+        from ..util import expand, xtext
         fp = repo.func(f"{GB}.init_popen_io")
-        # the os.dup branch
-        ifs = [x for x in fp.node.body if isinstance(x, ast.If) and "hasattr(os, 'dup')" in unparse(x.test)]
-        ob.require(len(ifs) == 1, "init_popen_io: dup branch not found")
-        body = ifs[0].orelse
-        events = []
-        for s_ in body:
-            for x in ast.walk(s_):
-                if isinstance(x, ast.Call):
-                    fn = unparse(x.func)
-                    if fn in ("os.dup", "os.dup2", "os.open", "os.close", "execmodel.fdopen", "Popen2IO"):
-                        events.append((fn, [unparse(a) for a in x.args], x, s_))
-        def idx(pred):
-            return next((i for i, e in enumerate(events) if pred(e)), None)
-        for fd, mode, flag, var in ((0, "r", "os.O_RDONLY", "stdin"), (1, "w", "os.O_WRONLY", "stdout")):
-            i_dup = idx(lambda e: e[0] == "os.dup" and e[1] == [str(fd)])
-            i_dup2 = idx(lambda e: e[0] == "os.dup2" and len(e[1]) == 2 and e[1][1] == str(fd))
-            ok = i_dup is not None and i_dup2 is not None and i_dup < i_dup2
-            ob.site(fp, events[i_dup][2] if i_dup is not None else fp.node, f"fd {fd}: os.dup({fd}) precedes os.dup2(devnull, {fd})", ok=ok)
-            if not ok:
-                ob.violation(fp, fp.node, f"fd {fd} is redirected before it was duplicated (or not at all): the protocol stream would be lost or remote prints would enter it", construct=f"fd{fd} order")
-                continue
-            # the dup is what the protocol file is built from
-            st = events[i_dup][3]
-            good = isinstance(st, ast.Assign) and unparse(st.targets[0]) == var and isinstance(st.value, ast.Call) and unparse(st.value.func) == "execmodel.fdopen" \
-                and unparse(st.value.args[0]) == f"os.dup({fd})" and repo.fold_in(st.value.args[1], fp) == mode
-            if not good:
-                ob.violation(fp, st, f"the protocol's {var} is not an fdopen('{mode}') of the duplicate of fd {fd}")
-            # devnull opened with the right direction before the dup2
-            src = events[i_dup2][1][0]
-            opens = [e for e in events[:i_dup2] if e[0] == "os.open" and isinstance(repo.parent(e[2]), ast.Assign) and unparse(repo.parent(e[2]).targets[0]) == src]
-            if not opens or opens[-1][1] != ["devnull", flag]:
-                ob.violation(fp, events[i_dup2][2], f"fd {fd} is not redirected to devnull opened {flag}")
-        pio = [e for e in events if e[0] == "Popen2IO"]
-        ok = len(pio) == 1 and pio[0][1] == ["stdout", "stdin", "execmodel"]
-        ob.site(fp, pio[0][2] if pio else fp.node, "protocol IO = Popen2IO(outfile=dup of 1, infile=dup of 0)", ok=ok)
+        cfp = build_cfg(repo, fp, Oracle(repo, fp, precise=True))
+
+        def nodes_calling(pred):
+            return cfg_nodes_with_call(cfp, pred)
+
+        pio = nodes_calling(lambda c: isinstance(c.func, ast.Name) and c.func.id == "Popen2IO" and len(c.args) == 3 and "os.dup(" in xtext(repo, fp, c))
+        ob.require(len(pio) == 1, "init_popen_io: construction of the protocol IO from dup'ed descriptors not found")
+        pcall = [c for c in calls_in_node(pio[0]) if isinstance(c.func, ast.Name) and c.func.id == "Popen2IO"][0]
+        out_x, in_x = xtext(repo, fp, pcall.args[0]), xtext(repo, fp, pcall.args[1])
+        ok = out_x.replace('"', "'").startswith("execmodel.fdopen(os.dup(1), 'w'") and in_x.replace('"', "'").startswith("execmodel.fdopen(os.dup(0), 'r'")
+        ob.site(fp, pcall, "protocol IO = Popen2IO(outfile = fdopen(dup(1),'w'), infile = fdopen(dup(0),'r'))", outfile=out_x[:50], infile=in_x[:50])
         if not ok:
-            ob.violation(fp, fp.node, "the protocol IO is not built from (dup'ed stdout, dup'ed stdin)")
+            ob.violation(fp, pcall, "the protocol IO is not built from (dup'ed stdout opened for writing, dup'ed stdin opened for reading)")
         sig = [a.arg for a in repo.func(f"{GB}.Popen2IO.__init__").node.args.args]
         if sig[:3] != ["self", "outfile", "infile"]:
             ob.violation(repo.func(f"{GB}.Popen2IO.__init__"), None, "Popen2IO.__init__ parameter order changed (outfile, infile)")
-        rb = {unparse(x.targets[0]): x for s_ in body for x in ast.walk(s_) if isinstance(x, ast.Assign) and unparse(x.targets[0]) in ("sys.stdin", "sys.stdout")}
-        for name, fd, mode in (("sys.stdin", 0, "r"), ("sys.stdout", 1, "w")):
-            x = rb.get(name)
-            ok = x is not None and isinstance(x.value, ast.Call) and unparse(x.value.func) == "execmodel.fdopen" and repo.fold_in(x.value.args[0], fp) == fd and repo.fold_in(x.value.args[1], fp) == mode
-            ob.site(fp, x if x is not None else fp.node, f"{name} rebound to the redirected fd {fd}", ok=ok)
+        for fd, flag in ((0, "os.O_RDONLY"), (1, "os.O_WRONLY")):
+            dups = nodes_calling(lambda c: unparse(c.func) == "os.dup" and len(c.args) == 1 and repo.fold_in(c.args[0], fp) == fd)
+            dup2s = nodes_calling(lambda c: unparse(c.func) == "os.dup2" and len(c.args) == 2 and repo.fold_in(c.args[1], fp) == fd)
+            # only the POSIX/dup branch matters: nodes dominated by a dup of this fd
+            ok = bool(dups) and bool(dup2s) and all(any(cfp.dominated_by(b.id, a.id) for a in dups) for b in dup2s)
+            ob.site(fp, dup2s[0].ast if dup2s else fp.node, f"fd {fd}: os.dup({fd}) precedes os.dup2(devnull, {fd}) on every path", ok=ok)
             if not ok:
-                ob.violation(fp, x if x is not None else fp.node, f"{name} is not rebound to the redirected descriptor {fd}: remote code using it would write into the protocol stream")
-        if rb and pio and min(x.lineno for x in rb.values()) < pio[0][2].lineno:
-            ob.violation(fp, fp.node, "sys.stdin/sys.stdout are rebound before the protocol IO was built")
+                ob.violation(fp, dup2s[0].ast if dup2s else fp.node, f"fd {fd} is redirected before it was duplicated (or not at all): the protocol stream would be lost or remote prints would enter it",
+                             construct=f"fd{fd} order")
+                continue
+            for b in dup2s:
+                c = [c for c in calls_in_node(b) if unparse(c.func) == "os.dup2"][0]
+                from ..util import value_at
+                src = norm(value_at(repo, fp, cfp, b.id, c.args[0]))
+                if not (src.startswith("os.open(") and src.rstrip(")").endswith(flag)):
+                    ob.violation(fp, c, f"fd {fd} is redirected to `{src[:60]}`, not to devnull opened {flag}")
+            # the redirection dominates the return of the protocol IO
+            rets = [n for n in cfp.nodes if isinstance(n.ast, ast.Return) and n.id in cfp.live() and any(cfp.dominated_by(n.id, a.id) for a in dups)]
+            for r in rets:
+                if not any(cfp.dominated_by(r.id, b.id) for b in dup2s):
+                    ob.violation(fp, r.ast, f"init_popen_io can return without fd {fd} being redirected to devnull")
+        rb = {}
+        for n in cfp.nodes:
+            if isinstance(n.ast, ast.Assign) and unparse(n.ast.targets[0]) in ("sys.stdin", "sys.stdout") and n.id in cfp.live() and any(cfp.dominated_by(n.id, p.id) for p in pio):
+                rb[unparse(n.ast.targets[0])] = n
+        for name, fd, mode in (("sys.stdin", 0, "r"), ("sys.stdout", 1, "w")):
+            n = rb.get(name)
+            v = expand(repo, fp, n.ast.value) if n is not None else None
+            ok = isinstance(v, ast.Call) and unparse(v.func) == "execmodel.fdopen" and repo.fold_in(v.args[0], fp) == fd and repo.fold_in(v.args[1], fp) == mode
+            ob.site(fp, n.ast if n is not None else fp.node, f"{name} rebound to the redirected fd {fd} after the protocol IO was built", ok=ok)
+            if not ok:
+                ob.violation(fp, n.ast if n is not None else fp.node, f"{name} is not rebound (after the protocol IO was built) to the redirected descriptor {fd}: remote code using it would write into the protocol stream",
+                             construct=f"{name} rebinding")
 
     with ctx.obligation("C06.g", "lineno") as ob:
         lw = [x for x in repo.own_nodes(f_sf) if isinstance(x, ast.Assign) and unparse(x.targets[0]) == "leading_ws"]
